@@ -154,6 +154,26 @@ META["C03"] = dict(
     assumptions=COMMON_ASSUME + ["'%.{d}E' % x and float(str) round-trip to the printed precision"],
 )
 
+META["C16"] = dict(
+    level="other",
+    technique="contracts on the real traversal and numbering functions (loop invariants: no duplicates; ghost prefix-count function for the per-type numbering) verified by VC generation from the AST + z3; names as strings, sympy variables, fit identifiers and diagram labels over enumerated circuits are a labelled bounded stand-in",
+    level_text="Proved for all element lists: _get_elements_recursive returns elements only and never the same element twice; generate_element_identifiers(running=True) numbers the j-th element j (a bijection onto 0..N-1), and running=False gives the j-th element 1 + the number of earlier elements of its type, so each type is numbered 1..count in traversal order. That every reachable element is listed, the string form of names, their uniqueness modulo user labels, and the consistent use of the identifiers in to_sympy / fitting / diagrams are checked by the bounded layer.",
+    level_note="elements as opaque ids with an uninterpreted symbol_of; termination and completeness of the work-list traversal not proved; Container.generate_element_identifiers bounded only",
+    explanation="Obligations from base.py:Connection._get_elements_recursive and Connection.generate_element_identifiers (both modes). Bounded: all trees up to a bound with repeated types, label mixes, nested containers; identifiers compared across to_sympy, fit identifiers, parameter tables, CircuiTikZ.",
+    trusted_base=["pyvc symex list windows; index_of / prefix_count ghost functions with their defining axioms"],
+    assumptions=COMMON_ASSUME,
+)
+
+META["C12"] = dict(
+    level="other",
+    technique="data-flow contracts on the real circuit<->lmfit glue (_to_lmfit, _from_lmfit, _extract_parameters, _fit_process frame): the functions are run by CPython on uninterpreted terms with recording stand-ins, branches enumerated, term equalities decided by z3; lmfit's own contract is assumed; parameter recovery over circuit families is a labelled bounded stand-in",
+    level_text="Proved on every path: _to_lmfit creates exactly one lmfit parameter per (element, symbol) under its fit identifier with value/min/max taken from the element and vary = not fixed, attaches each constraint expression to its parameter and refuses (ValueError) exactly when a value lies outside its limits; _from_lmfit writes each fitted value back into the (element, symbol) it came from and nothing else; the parameter table reports fit.params[<symbol>_<id>].value for varied and the element's value for fixed parameters and is not confused by constraint variables; _fit_process only reads the given circuit through deepcopy. With lmfit's contract (bounds respected, fixed values untouched, expressions enforced) the invariants of the property follow; recovery of the generating parameters and the behaviour of the nine optimisers are bounded.",
+    level_note="lmfit (minimize, Parameters.add semantics) assumed; identifiers from generate_fit_identifiers (C16); real arithmetic irrelevant here (pure data flow)",
+    explanation="EUF obligations at every Parameters.add / set_values / FittedParameter call of the three glue functions; syntactic frame obligation on _fit_process. Bounded: identifiable circuit families, start perturbations, methods x weights, fixed subsets, limit boxes, constraints.",
+    trusted_base=["contracts/dataflow.py term model", "recording stand-ins for lmfit.Parameters, elements, fit result"],
+    assumptions=COMMON_ASSUME + ["lmfit.minimize returns parameters within [min, max], leaves vary=False parameters untouched and enforces expr constraints"],
+)
+
 NOT_BUILT = "check not built yet in this session (planned, see DESIGN.md section 3)"
 NOT_APPLICABLE = {
     "C10": "statistical calibration over an RNG distribution and heuristic optimisers: no pre/postcondition within reach of a deductive verifier implies it (DESIGN.md C10); sampling would be a different technique family",
@@ -163,4 +183,4 @@ for _p in ["C%02d" % i for i in range(1, 21)]:
     if _p not in META and _p not in NOT_APPLICABLE:
         NOT_APPLICABLE[_p] = NOT_BUILT
 
-FIX_COMMITS = ["0098309", "82df5c9", "ded46ec", "756923f", "8a458bc", "a72c860", "b452482", "d151f47", "9ae2f3a", "8b96fa1", "fbdaf29", "dfe0838", "b53b7ad", "2609bab", "9c2d0e3", "8760cb9", "e53f4fa", "1cd7e3e", "a2ba9a8", "b02d031"]
+FIX_COMMITS = ["0098309", "82df5c9", "ded46ec", "756923f", "8a458bc", "a72c860", "b452482", "d151f47", "9ae2f3a", "8b96fa1", "fbdaf29", "dfe0838", "b53b7ad", "2609bab", "9c2d0e3", "8760cb9", "e53f4fa", "1cd7e3e", "a2ba9a8", "b02d031", "b72fc93", "294903f"]
